@@ -123,3 +123,258 @@ def check_virtual_children(prog, report):
                  construct='DummyElement.__init__: intervals')
     report.floor('R-children', 8)
     return rects
+
+
+# --------------------------------------------------------------------------
+# R-hier / R-index for the two estimators and Prolongate (C20)
+# --------------------------------------------------------------------------
+def _flatten_ok(fn):
+    """elems_fine = [child for children in elem_2_children for child in
+    children]  (element-major flattening)."""
+    for n in ast.walk(fn):
+        if isinstance(n, ast.Assign) and text(
+                n.targets[0]) == 'elems_fine' and isinstance(
+                    n.value, ast.ListComp) and len(
+                        n.value.generators) == 2:
+            g0, g1 = n.value.generators
+            return (text(g0.iter) == 'elem_2_children' and text(
+                g1.iter) == text(g0.target) and text(
+                    n.value.elt) == text(g1.target))
+    return False
+
+
+def _children_src(fn):
+    for n in ast.walk(fn):
+        if isinstance(n, ast.Assign) and text(
+                n.targets[0]) == 'elem_2_children':
+            return text(n.value).replace(' ', '') == \
+                'DummyElement.uniform_refinement(elems_coarse)'
+    return False
+
+
+def check_hh2(prog, report):
+    fi = prog.func(HH, 'HH2ErrorEstimator.estimate')
+    fn = fi.node
+    a = {text(n.targets[0]): n.value for n in ast.walk(fn)
+         if isinstance(n, ast.Assign) and len(n.targets) == 1}
+    ok_l = _flatten_ok(fn) and _children_src(fn) and text(
+        a.get('elems_coarse', ast.Constant(0))) == fi.params[1]
+    report.check(ok_l, 'R-index', 'h-h/2 fine list', fi.where(),
+                 'elems_fine is the element-major flattening of the four '
+                 'virtual children of each given element',
+                 construct='HH2ErrorEstimator: fine list')
+    mf = a.get('mat_fine')
+    ok_m = isinstance(mf, ast.Call) and text(mf.func).endswith(
+        '.bilform_matrix') and {k.arg: text(k.value) for k in mf.keywords
+                                if k.arg in ('elems_test', 'elems_trial')
+                                } == {'elems_test': 'elems_fine',
+                                      'elems_trial': 'elems_fine'}
+    report.check(ok_m, 'R-index', 'h-h/2 fine matrix', fi.where(),
+                 'mat_fine = <V 1_fine, 1_fine>',
+                 construct='HH2ErrorEstimator: fine matrix')
+    pr = a.get('Phi_prolong')
+    ok_p = pr is not None and text(pr).replace(' ', '') == \
+        'np.repeat(%s,4)' % fi.params[2]
+    report.check(ok_p, 'R-hier', 'h-h/2 prolongation', fi.where(),
+                 'the piecewise-constant extension repeats each coefficient '
+                 'for the 4 children of its element, matching the '
+                 'element-major flattening (np.repeat(Phi, 4))',
+                 construct='HH2ErrorEstimator: prolongation')
+    pf = a.get('Phi_fine')
+    ok_s = pf is not None and text(pf).replace(' ', '') == \
+        'np.linalg.solve(mat_fine,rhs)'
+    d = a.get('diff')
+    ok_d = d is not None and text(d).replace(' ', '') in (
+        'Phi_fine-Phi_prolong', 'Phi_prolong-Phi_fine')
+    ret = [n for n in ast.walk(fn) if isinstance(n, ast.Return)]
+    ok_e = len(ret) == 1 and text(ret[0].value).replace(' ', '') in (
+        'np.sqrt(diff.T@mat_fine@diff)', 'np.sqrt(diff@mat_fine@diff)',
+        'np.sqrt(diff.T@(mat_fine@diff))')
+    report.check(ok_s and ok_d and ok_e, 'R-hier', 'h-h/2 energy norm',
+                 fi.where(),
+                 'estimate = sqrt(d^T A_fine d) with d = Phi_fine - '
+                 'prolongation and Phi_fine the fine Galerkin solution '
+                 '(solve=%s diff=%s norm=%s)' % (ok_s, ok_d, ok_e),
+                 construct='HH2ErrorEstimator: energy norm of the '
+                 'difference')
+    # rhs ranges over the fine list
+    okr = True
+    for n in ast.walk(fn):
+        if isinstance(n, ast.Call):
+            f = text(n.func)
+            if f == 'self.g':
+                okr = okr and [text(x) for x in n.args] == ['elems_fine']
+            if f.endswith('.linform_vector'):
+                okr = okr and any(k.arg == 'elems' and text(
+                    k.value) == 'elems_fine' for k in n.keywords)
+    z = a.get('rhs')
+    okr = okr and z is not None and text(z).replace(
+        ' ', '') == 'np.zeros(len(elems_fine))'
+    report.check(okr, 'R-index', 'h-h/2 load over the fine list',
+                 fi.where(), 'rhs, g and M0 loads range over elems_fine',
+                 construct='HH2ErrorEstimator: load index space')
+
+
+def check_hier(prog, report):
+    fi = prog.func(HI, 'HierarchicalErrorEstimator.estimate')
+    fn = fi.node
+    a = {text(n.targets[0]): n.value for n in ast.walk(fn)
+         if isinstance(n, ast.Assign) and len(n.targets) == 1}
+    ok_l = _flatten_ok(fn) and _children_src(fn)
+    report.check(ok_l, 'R-index', 'hierarchical fine list', fi.where(),
+                 'elems_fine is the element-major flattening of the virtual '
+                 'children', construct='HierarchicalErrorEstimator: fine '
+                 'list')
+    m = a.get('mat')
+    kw = {k.arg: text(k.value) for k in m.keywords} if isinstance(
+        m, ast.Call) else {}
+    ok_m = kw.get('elems_test') == 'elems_fine' and kw.get(
+        'elems_trial') == 'elems_coarse'
+    vp = a.get('VPhi')
+    ok_v = vp is not None and text(vp).replace(' ', '') == 'mat@%s' % \
+        fi.params[2]
+    report.check(ok_m and ok_v, 'R-index', 'hierarchical V Phi', fi.where(),
+                 'mat = <V 1_coarse, 1_fine> (rows = fine test functions) '
+                 'and VPhi = mat @ Phi with Phi on the coarse list',
+                 construct='HierarchicalErrorEstimator: V Phi index spaces')
+    # per element: children indices and S
+    okc = False
+    oks = False
+    for n in ast.walk(fn):
+        if isinstance(n, ast.For) and isinstance(
+                n.iter, ast.Call) and text(n.iter.func) == 'enumerate' and \
+                text(n.iter.args[0]) == 'elems_coarse':
+            i = text(n.target.elts[0])
+            for s in n.body:
+                if isinstance(s, ast.Assign):
+                    tv = text(s.value).replace(' ', '')
+                    if text(s.targets[0]) == 'children':
+                        okc = tv == ('[elem_2_idx_fine[elem]foreleminelem_2_'
+                                     'children[%s]]' % i)
+                    if text(s.targets[0]) == 'S':
+                        oks = tv == ('self.SL.bilform_matrix(elem_2_children'
+                                     '[%s],elem_2_children[%s])' % (i, i))
+    e2i = a.get('elem_2_idx_fine')
+    oke = e2i is not None and text(e2i).replace(' ', '') == \
+        '{k:vforv,kinenumerate(elems_fine)}'
+    report.check(okc and oks and oke, 'R-index', 'hierarchical local block',
+                 fi.where(),
+                 'per coarse element i: the fine indices of its four '
+                 'children in child order, and S = <V 1_child, 1_child> in '
+                 'the same order',
+                 construct='HierarchicalErrorEstimator: local block')
+    # coefficient patterns against the child order
+    _, _, kids, _ = virtual_children(prog)
+    rects = [((v[0][0], v[2][0]), (v[0][1], v[2][1])) for v in kids]
+    st = [1 if r[0] == (0, 1) else -1 for r in rects]
+    sx = [1 if r[1] == (0, 1) else -1 for r in rects]
+    want = [st, sx, [p * q for p, q in zip(st, sx)]]
+    pats = None
+    for n in ast.walk(fn):
+        if isinstance(n, ast.For) and isinstance(
+                n.iter, ast.Call) and text(
+                    n.iter.func) == 'enumerate' and isinstance(
+                        n.iter.args[0], ast.List):
+            try:
+                pats = ast.literal_eval(n.iter.args[0])
+                ploop = n
+            except Exception:
+                pats = None
+    okp = pats is not None and [list(p) for p in pats] == want
+    report.check(okp, 'R-hier', 'hierarchical sign patterns', fi.where(),
+                 'estimator k uses psi_k = sigma_t^e_t sigma_x^e_x on the '
+                 'four children in their order: time %s, space %s, '
+                 'checkerboard %s; found %s' % (want[0], want[1], want[2],
+                                                pats),
+                 construct='HierarchicalErrorEstimator: sign patterns')
+    if pats is None:
+        return
+    body = {text(s.targets[0]) if isinstance(s, ast.Assign) else None: s
+            for s in ploop.body}
+    sc = body.get('scaling_estim')
+    oksc = sc is not None and text(sc.value).replace(' ', '') in (
+        'coefs@(S@coefs.T)', 'coefs@S@coefs.T', 'coefs.T@S@coefs',
+        'coefs@(S@coefs)', 'coefs@S@coefs')
+    k = text(ploop.target.elts[0])
+    est = None
+    for s in ploop.body:
+        if isinstance(s, ast.Assign) and text(
+                s.targets[0]).replace(' ', '') == 'estim_loc[%s]' % k:
+            est = text(s.value).replace(' ', '')
+    okest = est in ('abs(rhs_estim-V_estim)**2/scaling_estim',
+                    'abs(V_estim-rhs_estim)**2/scaling_estim',
+                    '(rhs_estim-V_estim)**2/scaling_estim')
+    acc = {}
+    for s in ast.walk(ploop):
+        if isinstance(s, ast.AugAssign) and isinstance(s.op, ast.Add):
+            acc[text(s.target)] = text(s.value).replace(' ', '')
+    inner = None
+    for s in ploop.body:
+        if isinstance(s, ast.For) and isinstance(
+                s.iter, ast.Call) and text(s.iter.func) == 'zip':
+            inner = s
+    okacc = False
+    if inner is not None:
+        za = [text(x) for x in inner.iter.args]
+        jv, cv = (text(x) for x in inner.target.elts)
+        okacc = za == ['children', text(ploop.target.elts[1])] and acc.get(
+            'rhs_estim') in ('rhs[%s]*%s' % (jv, cv),
+                             '%s*rhs[%s]' % (cv, jv)) and acc.get(
+                                 'V_estim') in ('VPhi[%s]*%s' % (jv, cv),
+                                                '%s*VPhi[%s]' % (cv, jv))
+    report.check(oksc and okest and okacc, 'R-hier',
+                 'hierarchical indicator formula', fi.where(ploop),
+                 'eta_k = |<data - V Phi, psi_k>|^2 / <V psi_k, psi_k> with '
+                 'the pairing accumulated over the children in order and '
+                 'the scaling c^T S c (scaling=%s formula=%s pairing=%s)' %
+                 (oksc, okest, okacc),
+                 construct='HierarchicalErrorEstimator: indicator formula')
+    # outputs: (e0 + e2/2, e1 + e2/2)
+    out = None
+    for n in ast.walk(fn):
+        if isinstance(n, ast.Call) and text(
+                n.func) == 'estims.append' and isinstance(n.args[0],
+                                                          ast.Tuple):
+            out = [text(x).replace(' ', '') for x in n.args[0].elts]
+    oko = out in (['estim_loc[0]+0.5*estim_loc[2]',
+                   'estim_loc[1]+0.5*estim_loc[2]'],
+                  ['estim_loc[0]+estim_loc[2]/2',
+                   'estim_loc[1]+estim_loc[2]/2'])
+    report.check(oko, 'R-hier', 'hierarchical outputs', fi.where(),
+                 'the (time, space) indicators are e_time + e_check/2 and '
+                 'e_space + e_check/2; found %s' % out,
+                 construct='HierarchicalErrorEstimator: output split')
+
+
+def check_prolongate(prog, report):
+    fi = prog.func('src/mesh.py', 'Prolongate')
+    fn = fi.node
+    if fi.params != ['vec_coarse', 'elems_coarse', 'elems_fine']:
+        raise AnalysisError('%s: signature changed' % fi.where())
+    a = {text(n.targets[0]): text(n.value).replace(' ', '')
+         for n in ast.walk(fn) if isinstance(n, ast.Assign)}
+    okd = a.get('elem_coarse_2_idx') == \
+        '{k:vforv,kinenumerate(elems_coarse)}'
+    okz = a.get('vec_fine') == 'np.zeros(len(elems_fine))'
+    loop = [n for n in fn.body if isinstance(n, ast.For)]
+    okw = False
+    if len(loop) == 1 and isinstance(loop[0].iter, ast.Call) and text(
+            loop[0].iter.func) == 'enumerate' and text(
+                loop[0].iter.args[0]) == 'elems_fine':
+        j, e = (text(x) for x in loop[0].target.elts)
+        body = loop[0].body
+        wl = [s for s in body if isinstance(s, ast.While)]
+        okw = (len(wl) == 1 and text(wl[0].test).replace(' ', '') ==
+               'elem_coarsenotinelem_coarse_2_idx' and any(
+                   text(s).replace(' ', '') ==
+                   'elem_coarse=elem_coarse.parent' for s in wl[0].body)
+               and a.get('elem_coarse') in (e, 'elem_coarse.parent')
+               and a.get('i') == 'elem_coarse_2_idx[elem_coarse]'
+               and a.get('vec_fine[%s]' % j) == 'vec_coarse[i]')
+        first = [s for s in body if isinstance(s, ast.Assign)]
+        okw = okw and text(first[0].value) == e
+    report.check(okd and okz and okw, 'R-hier', 'Prolongate', fi.where(),
+                 'each fine element takes the value of its nearest ancestor '
+                 '(walking .parent) that belongs to the coarse list, at its '
+                 'own position j',
+                 construct='Prolongate: nearest ancestor value')
